@@ -61,10 +61,14 @@ func sizeOn(r *rand.Rand, sc gen.SumScenario, side int) int {
 
 func runC13(c *hx.Ctx) {
 	r := c.Rng
-	budget := &sumBudget{left: 140000}
+	// model-side budget per stream (forks, honest growth, interference)
+	scale := 1.0
 	if c.Tier == "thorough" {
-		budget.left = 6000000
+		scale = 40
 	}
+	budget := &sumBudget{left: 70000 * scale}
+	budgetGrowth := &sumBudget{left: 25000 * scale}
+	budgetInterf := &sumBudget{left: 45000 * scale}
 	// ---- forks
 	for b := 0; b < c.N(260); b++ {
 		sc := forkBase(r)
@@ -195,7 +199,7 @@ func runC13(c *hx.Ctx) {
 			p, v, _ := gen.SumRecordOf(sc.Seed, 0, r.Intn(sizes[i]))
 			sc.Steps = append(sc.Steps, gen.SumStep{Client: r.Intn(3), View: gen.HonestView(0, int64(sizes[i])), Path: p, Vers: v})
 		}
-		run := sumDo(c, sc, budget, b%3 == 0)
+		run := sumDo(c, sc, budgetGrowth, b%3 == 0)
 		// honest server, but a client that saw a newer head meets an older response: still no alarm
 		if b%2 == 0 {
 			f := sc.Clone()
@@ -204,7 +208,7 @@ func runC13(c *hx.Ctx) {
 			for i := range f.Steps {
 				f.Steps[i].Client = 0
 			}
-			sumDo(c, f, budget, b%6 == 0)
+			sumDo(c, f, budgetGrowth, b%6 == 0)
 		}
 		_ = run
 	}
@@ -305,6 +309,6 @@ func runC13(c *hx.Ctx) {
 			kind = "two"
 		}
 		sc.Note = "interf-" + kind
-		sumDo(c, sc, budget, b%3 == 0)
+		sumDo(c, sc, budgetInterf, b%2 == 0)
 	}
 }
